@@ -2,6 +2,8 @@
 // Counterexample finder / native replay for SnmpOid::arc_cmp and the GetIter bookkeeping (bounded: OIDs of 0..4 contents
 // octets each). Executable form of the contracts: arc_cmp agrees with an independent sub-identifier-wise comparison;
 // store() stores exactly the OID.
+// Only OIDs a datagram can deliver count: finder and native replay pass both operands through SnmpOid::from_ber of the tree
+// under check, so contents its decoder refuses (those that end inside a sub-identifier) are never reported.
 #[cfg(any(kani, test))]
 mod verif_find_oid {
     use super::*;
@@ -62,7 +64,14 @@ mod verif_find_oid {
         let na: usize = kani::any();
         let nb: usize = kani::any();
         kani::assume(na <= 4 && nb <= 4);
-        check_arc_cmp(&a[..na], &b[..nb]);
+        // as they arrive: OBJECT IDENTIFIER elements through the crate's decoder
+        let ta: [u8; 6] = [0x06, na as u8, a[0], a[1], a[2], a[3]];
+        let tb: [u8; 6] = [0x06, nb as u8, b[0], b[1], b[2], b[3]];
+        let (oa, ob) = match (SnmpOid::from_ber(&ta[..2 + na]), SnmpOid::from_ber(&tb[..2 + nb])) {
+            (Ok((_, x)), Ok((_, y))) => (x, y),
+            _ => return, // refused by the decoder: never reaches the walk
+        };
+        check_arc_cmp(oa.0.as_ref(), ob.0.as_ref());
     }
     #[test]
     fn replay_arc_cmp() {
@@ -74,6 +83,15 @@ mod verif_find_oid {
         }
         let na = (bytes[8] as usize).min(4);
         let nb = (bytes[16] as usize).min(4);
-        check_arc_cmp(&bytes[0..na], &bytes[4..4 + nb]);
+        // as they arrive: OBJECT IDENTIFIER elements through the crate's decoder
+        let mut ta = vec![0x06u8, na as u8];
+        ta.extend_from_slice(&bytes[0..na]);
+        let mut tb = vec![0x06u8, nb as u8];
+        tb.extend_from_slice(&bytes[4..4 + nb]);
+        let (oa, ob) = match (SnmpOid::from_ber(&ta), SnmpOid::from_ber(&tb)) {
+            (Ok((_, x)), Ok((_, y))) => (x, y),
+            _ => return, // refused by the decoder: never reaches the walk
+        };
+        check_arc_cmp(oa.0.as_ref(), ob.0.as_ref());
     }
 }
